@@ -2918,7 +2918,8 @@ def check_valid_ipaddress(input_addr=None):
         IPv4Obj(input_addr)
         ipaddr_family = 4
     except BaseException:
-        raise ValueError(input_addr)
+        # not an IPv4 address: IPv6 is tried below
+        pass
 
     if ipaddr_family == 0:
         try:
